@@ -114,6 +114,9 @@ func primaryInRange(w *World, r *Result) {
 	}
 	nret := 0
 	ast.Inspect(prim.Decl.Body, func(x ast.Node) bool {
+		if _, isLit := x.(*ast.FuncLit); isLit {
+			return false // the returns of a predicate closure are not returns of Primary
+		}
 		ret, ok := x.(*ast.ReturnStmt)
 		if !ok || len(ret.Results) != 1 {
 			return true
